@@ -1,6 +1,7 @@
 """The pipeline world: input files -> phyclone.run.run (burn-in, particle Gibbs sweeps, concentration update, trace)
 -> trace file -> map / consensus / topology-report, in one process, real code, with the clock (T), the chain
 executor (P), the trace file (F) and the memo caches (M) decided by the simulator."""
+from sim.runner import HarnessError as _HarnessError
 import contextlib
 import errno
 import gzip as real_gzip
@@ -200,8 +201,24 @@ class SimExecutor(object):
                 os._exit(code)
         os.close(wfd)
         chunks = []
-        with os.fdopen(rfd, "rb") as fh:
+        import select
+        import signal
+        import time as _time
+
+        t_end = _time.time() + 780  # below the pool worker's own backstop: a silent simulated worker is named, not waited for
+        with os.fdopen(rfd, "rb", buffering=0) as fh:
             while True:
+                left = t_end - _time.time()
+                ready = select.select([fh], [], [], max(0.0, left))[0] if left > 0 else []
+                if not ready:
+                    try:
+                        os.kill(pid, signal.SIGKILL)
+                    except OSError:
+                        pass
+                    os.waitpid(pid, 0)
+                    from sim import runner as _runner
+
+                    raise _runner.HarnessError("a simulated worker (chains %r) was still running after 780 s of wall clock and was killed; nothing is concluded for this run" % (list(chain_list),))
                 b = fh.read(1 << 20)
                 if not b:
                     break
@@ -713,6 +730,8 @@ def run_pipeline(spec):
                     prun.run(**kwargs)
         except ProcessKilled as e:
             hist["exception"] = {"type": "ProcessKilled", "where": "", "msg": str(e)}
+        except _HarnessError:
+            raise  # a failure of the simulator itself is never a verdict about the run
         except ChainError as e:
             hist["exception"] = {"type": e.type_name, "where": e.where, "msg": e.msg}
         except Exception as e:
